@@ -190,6 +190,9 @@ def native_confirm(task, viol):
                 return True, 'native stress replay (chaos seed %d) fails: %s' % (seed * 7919, last)
         return False, 'native stress replay: 40 chaos schedules completed without failure (%s)' % last
     nr = native_run(task.text, task.entry, viol['inputs'], timeout=task.opts.get('native_timeout', 30))
+    if kind == 'leak':
+        bad = 'LeakSanitizer' in nr['stderr'] or nr['rc'] not in (0,)
+        return bad, 'native rc=%s %s' % (nr['rc'], nr['stderr'][-500:].replace('\n', ' | '))
     if kind in ('memory', 'uncaught_exception', 'terminate', 'trap', 'unreachable'):
         bad = nr['rc'] != 0 or not nr['done']
         return bad, 'native rc=%s %s' % (nr['rc'], nr['stderr'][-600:].replace('\n', ' | '))
